@@ -131,6 +131,9 @@ func TestDriveC04(t *testing.T) {
 						ctl.Rpm(600+10*ctl.reg("pwm"), true)
 					}
 				}
+				// between the construction of the controller (and its control loop) and the first cycle the daemon spends
+				// time: the start-up wait of Run, minutes of fan initialization - regulation starts from the first cycle
+				time.Sleep(time.Duration([]int{0, 3400, 0, 120000, 0, 900000}[i%6]) * time.Millisecond)
 				for j, cv := range prior {
 					time.Sleep(time.Duration(step) * time.Millisecond)
 					poll(j)
